@@ -123,9 +123,13 @@ IntHelperOK(r) ==
     LET a == r.a  uns == r.t \in {"u8", "u16", "u32"} IN
     CASE r.fn = "eqabs" -> (r.out = 1) = (IAbs(a[1] - a[2]) <= a[3])
       [] r.fn = "eqrel" -> (r.out = 1) = (IAbs(a[1] - a[2]) <= a[3] * IAbs(a[1]))
-      \* cmp is DEFINED as sign(a - b) in the element type: for 32-bit unsigned operands with a < b the difference wraps (the
-      \* narrower unsigned types are promoted to int first); that case is left unjudged (DESIGN 11.5)
-      [] r.fn = "cmp" -> (r.t = "u32" /\ a[1] < a[2]) \/ r.out = ISgn(a[1] - a[2])
+      \* cmp is a three-way comparison, cmpt the same with a dead band of t; stated with comparisons only, so that operand
+      \* pairs whose difference does not fit the element type (or the checker's integers) are covered
+      [] r.fn = "cmp" -> r.out = (IF a[1] > a[2] THEN 1 ELSE IF a[1] < a[2] THEN -1 ELSE 0)
+      [] r.fn = "cmpt" -> LET hi == IF a[1] > a[2] THEN a[1] ELSE a[2]  lo == IF a[1] > a[2] THEN a[2] ELSE a[1]
+                              fits == lo >= 0 \/ hi < 0 \/ hi <= 2147483647 + lo                            \* hi - lo fits the checker's integers
+                              near == fits /\ hi - lo <= a[3]
+                          IN  r.out = (IF near THEN 0 ELSE IF a[1] > a[2] THEN 1 ELSE -1)
       [] r.fn = "clamp" -> r.out = (IF a[1] < a[2] THEN a[2] ELSE IF a[3] < a[1] THEN a[3] ELSE a[1])
       [] r.fn = "abs" -> r.out = IAbs(a[1])
       [] r.fn = "sign" -> r.out = ISgn(a[1])
